@@ -93,9 +93,11 @@ class Agent:
             r, _, _ = select.select([self.sock], [], [], 0.05)
             if not r:
                 continue
+            self.busy = True
             try:
                 data, addr = self.sock.recvfrom(65536)
             except OSError:
+                self.busy = False
                 break
             with self.lock:
                 n = self.n
@@ -103,6 +105,7 @@ class Agent:
                 self.received.append(data)
                 h = self.handler
             if h is None:
+                self.busy = False
                 continue
             try:
                 replies = h(n, data, addr) or []
@@ -110,10 +113,30 @@ class Agent:
                 self.error = repr(e)
                 replies = []
             for delay, payload in replies:
-                if delay and delay > 0:
+                if delay and delay < 0:
+                    time.sleep(-delay)            # paced inline (floods must not overflow the client's receive queue)
+                    self._send(payload, addr)
+                elif delay and delay > 0:
                     threading.Timer(delay, self._send, (payload, addr)).start()
                 else:
                     self._send(payload, addr)
+            self.busy = False
+
+    def quiesce(self, limit=0.3):
+        """Wait until every datagram the client has already sent was handled (a call may return before the agent has even
+        seen its request, when an earlier datagram in the client's queue ended it): the request then still belongs to
+        the step that sent it."""
+        end = time.time() + limit
+        idle = 0
+        while time.time() < end:
+            r, _, _ = select.select([self.sock], [], [], 0)
+            if r or getattr(self, "busy", False):
+                idle = 0
+            else:
+                idle += 1
+                if idle >= 3:
+                    return
+            time.sleep(0.0005)
 
     def _send(self, payload, addr):
         try:
